@@ -174,9 +174,7 @@ def generated(ctx, n, long):
 
 
 def urls(ctx, n):
-    # lone surrogates within two characters after a '%' are removed by construction at URL level: that input class is
-    # the listed known finding KF-SURR-ESC, which the quoter-level check above keeps re-confirming with its recogniser
-    ctx.given("url", {"p": prog.program(encoded_ctor=True).map(lambda p: _walk(p, _strip_window))}, max_examples=n)
+    ctx.given("url", {"p": prog.program(encoded_ctor=True)}, max_examples=n)
 
 
 def singles(ctx):
